@@ -253,3 +253,6 @@ def run(chk, prog, tier):
     check_extractable(chk, prog)
     check_rank(chk, prog)
     check_cost(chk, prog)
+    # the extractor reads tables through the batched row scans of the bridge: the last partial batch must not be lost
+    from . import scan_common
+    scan_common.check_scan_batches(chk, prog, only=lambda f: f.crate in ("egglog_bridge", "egglog") or "for_each_matching_col" in f.name, floor=4)
